@@ -201,6 +201,15 @@ def compare(facts, res, rule, fa, fb, only=None, canon_a=None, canon_b=None, wha
     res.instance(rule, "%s vs %s" % (fa["qname"], fb["qname"]), facts.loc(fb), "%d / %d atoms%s%s" % (len(A), len(B), (" restricted to " + ",".join(only)) if only else "", (" ; inlined one-sided helpers " + ",".join(sorted(inl))) if inl else ""))
     onlyA, onlyB = sorted(set(A) - set(B)), sorted(set(B) - set(A))
     if onlyA and onlyB:
+        # a local dropped or added on one side shifts the numbers of the locals after it: when the unmatched steps pair up under one
+        # consistent renumbering, and that renumbering leaves fewer unmatched steps than before, compare under it
+        ren = _renumbering(onlyA, onlyB)
+        if ren:
+            B2 = {_apply_ren(k, ren): v for k, v in B.items()}
+            if len(B2) == len(B) and len(set(A) ^ set(B2)) < len(set(A) ^ set(B)):
+                B = B2
+                onlyA, onlyB = sorted(set(A) - set(B)), sorted(set(B) - set(A))
+    if onlyA and onlyB:
         pairs = [(a, b) for a in onlyA for b in onlyB if _near(a, b)]
         if not pairs:
             raise AnalysisBroken("%s and %s differ structurally (%d / %d unmatched steps, none a near match, e.g. `%s` vs `%s`): one of them was restructured; re-confirm the sibling rule by reading"
@@ -216,3 +225,44 @@ def compare(facts, res, rule, fa, fb, only=None, canon_a=None, canon_b=None, wha
         res.violation(rule, tbf.rel(facts.path_of(B[k])), fb["qname"], ("extra:" + k)[:110], B[k]["l"][1],
                       "%s%s performs `%s` which its sibling %s does not: the two implementations no longer agree" % (what, fb["qname"], k[:160], fa["qname"]))
     return len(A), len(B)
+
+
+_NUM = re.compile(r"\b(mutable:v|local:u)(\d+)\b")
+
+
+def _renumbering(onlyA, onlyB):
+    """a bijection of numbered locals of B onto those of A under which some unmatched steps of B become steps of A; None if inconsistent"""
+    mask = lambda s: _NUM.sub(lambda m: m.group(1) + "#", s)
+    byA = {}
+    for a in onlyA:
+        byA.setdefault(mask(a), []).append(a)
+    ren = {}
+    for b in onlyB:
+        cand = byA.get(mask(b), [])
+        if len(cand) != 1:
+            continue
+        for (pa, na), (pb, nb) in zip(_NUM.findall(cand[0]), _NUM.findall(b)):
+            if pa != pb:
+                return None
+            if ren.setdefault((pb, nb), na) != na:
+                return None
+    ren = {k: v for k, v in ren.items() if k[1] != v}
+    if not ren:
+        return None
+    # complete into a bijection: a number taken as an image must itself move to the freed number (swap chains)
+    for pref in {k[0] for k in ren}:
+        src = [k[1] for k in ren if k[0] == pref]
+        img = [ren[(pref, n)] for n in src]
+        if len(set(img)) != len(img):
+            return None
+        free = [n for n in src if n not in img]
+        for n in img:
+            if n not in src:
+                if not free:
+                    return None
+                ren[(pref, n)] = free.pop()
+    return ren
+
+
+def _apply_ren(s, ren):
+    return _NUM.sub(lambda m: m.group(1) + ren.get((m.group(1), m.group(2)), m.group(2)), s)
